@@ -1,23 +1,19 @@
-import CalicoVerif.Proofs.C31
+import CalicoVerif.Proofs.C31ClosedStep
 /-!
 C31 — Per-workload policy sync streams are complete, minimal and ordered.
 Property theorems only.  Definitions of the statement: `Proofs/C31Spec.lean`
-(`View`/`applyMsg` = the policy-sync client, `Complete`, `monitor`), model:
-`Model/C31.lean`; helper lemmas: `Proofs/C31Base`, `C31Chan`, `C31`.
+(`View`/`applyMsg` = the policy-sync client, `Complete`, `Closed`, `Pre`/`Valid` = the calculation
+graph's contract, `monitor`); model: `Model/C31.lean`; lemmas: `Proofs/C31Base`, `C31Chan`, `C31`,
+`C31Lift`, `C31Handlers`, `C31Hist`, `C31Step`, `C31Closed`, `C31ClosedStep`.
 
-Status.  Proved for ALL histories (no contract needed): `nothing_after_close`
-(the "sends nothing to a workload after it leaves" clause, plus: a closed channel
-is never closed twice).  Proved for every state satisfying the channel
-discipline (which `reachable_chan` shows every reachable state does):
-`sync_burst_complete_partial` and `join_snapshot_complete_partial` — whenever the
-Processor runs `maybeSyncEndpoint` (endpoint update, join) the client of that
-stream afterwards holds EXACTLY the endpoint, the latest versions of exactly the
-policies/profiles/IP sets it needs, and (on join) every service account and
-namespace and the in-sync flag.  NOT proved in Lean (checked on the real code by
-the harness oracle on every generated history instead): that the incremental
-handlers (policy/profile/IP-set updates and deltas, service-account/namespace
-broadcasts) preserve `Complete` along a whole history, and the
-`never references something not yet sent` ordering clause.
+All four clauses of the property are proved over WHOLE histories:
+* `stream_complete` — complete + minimal: for every contract-respecting history, every joined workload's
+  stream applied in order yields exactly its endpoint and the latest versions of exactly what it needs.
+* `stream_closed` — ordered: after EVERY prefix of EVERY stream the client is referentially closed (it never
+  holds an endpoint naming a policy/profile, or a policy/profile naming an IP set, that is not there).
+* `nothing_after_close`, `leave_closes` — nothing is sent to a workload after it leaves (no contract needed).
+`Valid` asks that the history respects `Pre` at every step and that the Processor does not panic; outside
+`Pre` the real code panics exactly where the model returns `none` (checked by correspondence).
 -/
 namespace CalicoVerif.C31
 
@@ -114,108 +110,61 @@ theorem leave_closes {p p' : Proc} {w uid c : Nat} {ei : EpInfo} {evs : List Ev}
     rw [AMap.get_set_eq] at hg'
     cases hg'; rfl
 
-/-! ### completeness of a sync burst (endpoint update, join) -/
+/-! ### complete and minimal, over whole histories -/
 
-/-- **complete + minimal, one `maybeSyncEndpoint` burst** (`_partial`: one
-handler, not the whole history).  If the client of endpoint `w`'s stream agrees
-with the Processor's synced sets (`Core`: what every handler maintains), then
-after `maybeSyncEndpoint` has run for it the client holds EXACTLY: its own
-endpoint, the Processor's latest version of exactly the policies and profiles
-the endpoint lists, and the latest members of exactly the IP sets those name —
-nothing else. -/
-theorem sync_burst_complete_partial {p : Proc} {w c : Nat} {ei ei' : EpInfo} {e : Endpoint} {ms : List Msg} {v : View}
-    (hcore : Core p ei v) (hex : ∀ x, x ∈ ei.syncedIP → (p.ipsets.get x).isSome)
-    (he : ei.ep = some e) (ho : ei.output = some c)
-    (hsa : ∀ id, v.sas id = p.sas.get id) (hns : ∀ id, v.nss id = p.nss.get id) (hsy : v.inSync = p.inSync)
-    (h : maybeSync p w ei = some (ei', ms)) :
-    Complete p w (some e) (applyMsgs v ms) := by
-  obtain ⟨c1, x1, ep1, sa1, ns1, sy1, ex1⟩ := maybeSync_core hcore he ho h
-  have hep := (maybeSync_output h).2.1
-  have := complete_of (w := w) c1 x1 (by rw [ep1, hep, he]; rfl) (by rw [sa1]; exact hsa) (by rw [ns1]; exact hns)
-    (by rw [sy1]; exact hsy) (fun x hx => by
-      by_cases hxo : x ∈ ei.syncedIP
-      · exact hex x hxo
-      · exact ex1 x hx hxo)
-  rw [hep, he] at this
-  exact this
+/-- **stream_complete (+ minimal).**  For EVERY history of dataplane updates, joins and leaves that respects
+the calculation graph's contract (`Valid`: `Pre` holds at every step and the Processor does not panic), and
+for every workload that is joined at the end: its stream — ALL the messages ever sent on its channel,
+applied in order by the client — yields EXACTLY its own endpoint (if the Processor knows it), the latest
+versions of exactly the policies and profiles that endpoint lists, the latest members of exactly the IP sets
+those name, every service account and namespace in its latest version, and the in-sync flag; nothing else. -/
+theorem stream_complete (ops : List Op) (p : Proc) (evs : List Ev) (h : Valid Proc.init ops p evs)
+    (w c : Nat) (ei : EpInfo) (hg : p.eps.get w = some ei) (ho : ei.output = some c) :
+    Complete p w ei.ep (viewOf evs c) := by
+  have hi : Inv p evs := by simpa using valid_inv inv_init h
+  have hok := hi.streams (w, ei) (AMap.mem_of_get hg) c ho
+  exact complete_of hok.core hok.exact hok.ep hok.sas hok.nss hok.inSync
+    (fun x hx => needed_isSome hi.good.polRefs hi.good.profRefs ((hok.exact.ipsets x).1 hx))
 
-/-- **complete + minimal, join** (`_partial`: the snapshot a join sends, not the
-whole history).  In every state satisfying the channel discipline (every
-reachable state does: `reachable_chan`) whose service-account and namespace
-stores have distinct keys, a join that does not panic gives the workload a FRESH
-channel on which — applied in order — the client ends up holding exactly its
-endpoint (if the Processor knows it), the latest versions of exactly the
-policies, profiles and IP sets it needs, every service account and namespace,
-and the in-sync flag; the old channel's events are not on the new channel. -/
-theorem join_snapshot_complete_partial {p p' : Proc} {w uid : Nat} {evs : List Ev}
-    (hsa : p.sas.NodupKeys) (hns : p.nss.NodupKeys)
-    (h : step p (.join w uid) = some (p', evs)) :
-    ∃ ei', p'.eps.get w = some ei' ∧ ei'.output = some p.nextCh ∧
-      Complete p' w ei'.ep (applyMsgs View.empty (msgsOf evs p.nextCh)) := by
-  simp only [step, handleJoin] at h
-  cases hm : maybeSync p w { joinOld p w with joinUID := uid, output := some p.nextCh, syncedPol := [], syncedProf := [], syncedIP := [] } with
-  | none => simp only [hm] at h; cases h
-  | some r =>
-    obtain ⟨ei', ms⟩ := r
-    simp only [hm, Option.some.injEq, Prod.mk.injEq] at h
-    obtain ⟨rfl, rfl⟩ := h
-    have hout := maybeSync_output hm
-    refine ⟨ei', AMap.get_set_eq _ _ _, hout.1, ?_⟩
-    rw [msgsOf_append, msgsOf_closeEv, msgsOf_tag, List.nil_append]
-    simp only [applyMsgs_append]
-    -- the burst of maybeSync from the empty client
-    have hcore0 : Core p { joinOld p w with joinUID := uid, output := some p.nextCh, syncedPol := [], syncedProf := [], syncedIP := [] } View.empty :=
-      ⟨fun id => by simp [View.empty], fun id => by simp [View.empty], fun x => by simp [View.empty]⟩
-    have hburst : Core p ei' (applyMsgs View.empty ms) ∧ Exact p ei' ∧
-        (applyMsgs View.empty ms).ep = ei'.ep.map (fun e => (w, e)) ∧ (applyMsgs View.empty ms).sas = View.empty.sas ∧
-        (applyMsgs View.empty ms).nss = View.empty.nss ∧ (applyMsgs View.empty ms).inSync = false ∧
-        (∀ x, x ∈ ei'.syncedIP → (p.ipsets.get x).isSome) := by
-      cases hep : (joinOld p w).ep with
-      | none =>
-        have : maybeSync p w { joinOld p w with joinUID := uid, output := some p.nextCh, syncedPol := [], syncedProf := [], syncedIP := [] }
-            = some ({ joinOld p w with joinUID := uid, output := some p.nextCh, syncedPol := [], syncedProf := [], syncedIP := [] }, []) := by
-          unfold maybeSync; simp only [hep]
-        rw [this] at hm
-        simp only [Option.some.injEq, Prod.mk.injEq] at hm
-        obtain ⟨rfl, rfl⟩ := hm
-        refine ⟨hcore0, ⟨fun id => by simp [hep, epPols], fun id => by simp [hep, epProfs], fun x => ?_⟩, by simp [applyMsgs, View.empty, hep],
-          rfl, rfl, rfl, fun x hx => by simp at hx⟩
-        simp only [List.not_mem_nil, false_iff, hep, neededIP, epProfs, epPols]
-        rintro (⟨_, h1, _⟩ | ⟨_, h1, _⟩) <;> simp at h1
-      | some e =>
-        obtain ⟨c1, x1, ep1, sa1, ns1, sy1, ex1⟩ := maybeSync_core (c := p.nextCh) hcore0 hep rfl hm
-        refine ⟨c1, x1, by rw [ep1, hout.2.1]; simp [hep], sa1, ns1, sy1, fun x hx => ex1 x hx (by simp)⟩
-    obtain ⟨c1, x1, ep1, sa1, ns1, sy1, ex1⟩ := hburst
-    generalize applyMsgs View.empty ms = v1 at *
-    obtain ⟨kS, vS⟩ := saUpd_view p.sas hsa v1
-    have fS := frame_kind kS v1
-    generalize applyMsgs v1 (p.sas.map (fun kv => Msg.saUpd kv.1 kv.2)) = v2 at *
-    obtain ⟨kN, vN⟩ := nsUpd_view p.nss hns v2
-    have fN := frame_kind kN v2
-    generalize applyMsgs v2 (p.nss.map (fun kv => Msg.nsUpd kv.1 kv.2)) = v3 at *
-    have kY : ∀ m ∈ (if p.inSync then [Msg.inSync] else []), m.kind = .sync := by
-      intro m hm'; by_cases hs : p.inSync = true <;> simp [hs] at hm'; subst hm'; rfl
-    have fY := frame_kind kY v3
-    have hcore3 : Core p ei' (applyMsgs v3 (if p.inSync then [Msg.inSync] else [])) :=
-      ⟨fun id => by rw [fY.2.1 (by decide), fN.2.1 (by decide), fS.2.1 (by decide)]; exact c1.pols id,
-       fun id => by rw [fY.2.2.1 (by decide), fN.2.2.1 (by decide), fS.2.2.1 (by decide)]; exact c1.profs id,
-       fun x => by rw [fY.2.2.2.1 (by decide), fN.2.2.2.1 (by decide), fS.2.2.2.1 (by decide)]; exact c1.ipsets x⟩
-    refine complete_of (p := { p with eps := p.eps.set w ei', nextCh := p.nextCh + 1 }) ⟨hcore3.pols, hcore3.profs, hcore3.ipsets⟩
-      ⟨x1.pols, x1.profs, x1.ipsets⟩ ?_ (fun id => ?_) (fun id => ?_) ?_ ex1
-    · rw [fY.1 (by decide), fN.1 (by decide), fS.1 (by decide)]; exact ep1
-    · show _ = p.sas.get id
-      rw [fY.2.2.2.2.1 (by decide), fN.2.2.2.2.1 (by decide), vS id, sa1]
-      cases p.sas.get id <;> rfl
-    · show _ = p.nss.get id
-      rw [fY.2.2.2.2.2.1 (by decide), vN id, fS.2.2.2.2.2.1 (by decide), ns1]
-      cases p.nss.get id <;> rfl
-    · show _ = p.inSync
-      by_cases hs : p.inSync = true
-      · simp [hs, applyMsgs, applyMsg]
-      · simp only [Bool.not_eq_true] at hs
-        rw [hs]
-        simp only [Bool.false_eq_true, if_false, applyMsgs, List.foldl_nil]
-        rw [fN.2.2.2.2.2.2 (by decide), fS.2.2.2.2.2.2 (by decide), sy1]
+/-- the contract is kept by the stores along every such history (what `Pre` at each step buys) -/
+theorem stores_respect_contract (ops : List Op) (p : Proc) (evs : List Ev) (h : Valid Proc.init ops p evs) : Good p := by
+  have hi : Inv p evs := by simpa using valid_inv inv_init h
+  exact hi.good
+
+/-- **stream_closed ("never references something not yet sent").**  For every contract-respecting history,
+every channel `c` (joined, left or replaced) and every `k`: after the first `k` messages ever sent on `c`, the
+client is referentially closed — its endpoint's policies and profiles are present and so is every IP set a
+present policy or profile names.  So IP sets arrive before the policies that name them, policies before the
+endpoint that lists them, and removals only after nothing present refers to what is removed. -/
+theorem stream_closed (ops : List Op) (p : Proc) (evs : List Ev) (h : Valid Proc.init ops p evs) (c k : Nat) :
+    Closed (applyMsgs View.empty ((msgsOf evs c).take k)) := by
+  have hca : ClosedAll evs := by simpa using valid_closedAll inv_init closedAll_nil h
+  exact closedAlong_take (hca c) k
+
+/-! ### non-vacuity of `Valid` -/
+
+instance (p : Proc) (op : Op) : Decidable (Pre p op) := by
+  cases op <;> unfold Pre <;> infer_instance
+
+/-- executable check that a history respects the contract and does not panic -/
+def validB : Proc → List Op → Bool
+  | _, [] => true
+  | p, op :: ops => decide (Pre p op) && (match step p op with
+    | some (p', _) => validB p' ops
+    | none => false)
+
+theorem valid_of_validB {p : Proc} {ops : List Op} (h : validB p ops = true) : ∃ p' evs, Valid p ops p' evs := by
+  induction ops generalizing p with
+  | nil => exact ⟨p, [], Valid.nil p⟩
+  | cons op ops ih =>
+    simp only [validB, Bool.and_eq_true, decide_eq_true_eq] at h
+    cases hs : step p op with
+    | none => simp [hs] at h
+    | some r =>
+      obtain ⟨p1, evs1⟩ := r
+      simp only [hs] at h
+      obtain ⟨p2, evs2, hv⟩ := ih h.2
+      exact ⟨p2, evs1 ++ evs2, Valid.cons h.1 hs hv⟩
 
 /-! ### non-vacuity -/
 
@@ -227,6 +176,17 @@ example : (run Proc.init demoOps).map (·.2) = some
     [(0, some (Msg.ipUpd 0 [1, 2])), (0, some (Msg.polUpd 1 ⟨[⟨5, [(0, 0), (8, 0)]⟩], []⟩)),
       (0, some (Msg.epUpd 0 ⟨1, [⟨0, [1], [1]⟩], []⟩)), (0, some (Msg.saUpd 1 3)), (0, none)] := by
   decide +kernel
+
+/-- a richer contract-respecting history: join before the endpoint is known, policy and profile updates that
+add and drop IP sets, a delta, an endpoint update dropping a policy, service accounts, in-sync, re-join, leave -/
+def validOps : List Op :=
+  [.join 0 1, .ipset 0 [1, 2], .ipset 1 [3], .pol 1 ⟨[⟨5, [(0, 0)]⟩], []⟩, .prof 2 ⟨[], [⟨1, [(3, 1)]⟩]⟩,
+   .ep 0 ⟨1, [⟨0, [1], [1]⟩], [2]⟩, .sa 1 3, .inSync, .pol 1 ⟨[⟨6, [(8, 1)]⟩], []⟩, .ipDelta 1 [4] [3],
+   .ipset 0 [7], .ep 0 ⟨2, [], [2]⟩, .polRm 1, .join 0 2, .ns 4 4, .leave 0 2, .ep 0 ⟨3, [], []⟩, .profRm 2, .ipRm 1]
+
+/-- `stream_complete` / `stream_closed` are not vacuous: the histories above are `Valid` -/
+example : ∃ p evs, Valid Proc.init validOps p evs := valid_of_validB (by decide +kernel)
+example : ∃ p evs, Valid Proc.init demoOps p evs := valid_of_validB (by decide +kernel)
 
 /-- `nothing_after_close` is not vacuous: the demo history is panic-free and closes channel 0. -/
 example : (run Proc.init demoOps).isSome = true := by decide +kernel
